@@ -29,7 +29,7 @@ enum Case {
 }
 
 fn gen(t: Tier, _seed: u64, emit: &mut dyn FnMut(Case)) {
-    for cid in Cid::ALL {
+    for cid in Cid::WITH_CUSTOM {
         let l = t.pick(5, 6);
         for seed in 0..3 {
             emit(Case::Fixpoint { cid, l, seed });
